@@ -8,6 +8,7 @@ VARIABLE x
 
 Universe == CASE Kind = "u06" -> U06
               [] Kind = "v06" -> V06
+              [] Kind = "mimic" -> UMimic
               [] Kind = "neigh" -> NeighbourCases
               [] Kind = "namesA" -> NamesA
               [] Kind = "texts" -> Texts
